@@ -80,6 +80,7 @@ thread_local! {
 }
 
 pub fn install_case(table: Table) -> Arc<CaseCtx> {
+    crate::dsl::reset_tokens();
     let ctx = Arc::new(CaseCtx {
         table,
         aborts: Arc::new(Mutex::new(HashMap::new())),
